@@ -8,16 +8,20 @@
        [k |-> "cmp", a, b]                      the six comparisons of two registers      (no state change)
        [k |-> "fromint", r, vi]                 register r := its type constructed from built-in integer number vi
        [k |-> "toflt", a]                       register a converted to double            (no state change)
+       [k |-> "fromflt", r, vi]                 register r := its type constructed from double number vi
    Every register is loaded before it is read.  Each simulated behaviour of full depth is written as one JSON
    line; the C++ interpreter executes it on real objects and logs the abstract state after every step. *)
-EXTENDS Integers, Sequences, TLC, CSV, Json, IOUtils
+EXTENDS Integers, Sequences, FiniteSets, TLC, CSV, Json, IOUtils
 
 CONSTANTS NRegs, Depth, NValues
 Out == IOEnv.OUT
 Ops == {"add", "sub", "mul", "div"}
 VARIABLES hist, loaded
 Init == hist = <<>> /\ loaded = {}
-Load == \E r \in 1..NRegs, vi \in 0..(NValues - 1) :
+\* value numbers offered at the current step: a window of four that moves with the step number and the program so far,
+\* so that the value-carrying actions do not crowd out the others when TLC picks a successor uniformly
+Offered == {(5 * Len(hist) + 7 * Cardinality(loaded) + j * 11) % NValues : j \in 0..3}
+Load == \E r \in 1..NRegs, vi \in Offered :
             /\ hist' = Append(hist, [k |-> "load", r |-> r, vi |-> vi])
             /\ loaded' = loaded \cup {r}
 Step == \E op \in Ops, a \in loaded, b \in loaded, d \in 1..NRegs :
@@ -32,15 +36,18 @@ NegStep == \E a \in loaded, d \in 1..NRegs :
 CmpStep == \E a \in loaded, b \in loaded :
             /\ hist' = Append(hist, [k |-> "cmp", a |-> a, b |-> b])
             /\ UNCHANGED loaded
-FromInt == \E r \in 1..NRegs, vi \in 0..(NValues - 1) :
+FromInt == \E r \in 1..NRegs, vi \in Offered :
             /\ hist' = Append(hist, [k |-> "fromint", r |-> r, vi |-> vi])
+            /\ loaded' = loaded \cup {r}
+FromFlt == \E r \in 1..NRegs, vi \in Offered :
+            /\ hist' = Append(hist, [k |-> "fromflt", r |-> r, vi |-> vi])
             /\ loaded' = loaded \cup {r}
 ToFlt == \E a \in loaded :
             /\ hist' = Append(hist, [k |-> "toflt", a |-> a])
             /\ UNCHANGED loaded
 Next == /\ Len(hist) < Depth
         /\ IF Len(hist) < 2 THEN Load
-           ELSE (Load \/ Step \/ Step \/ Step \/ Cas \/ NegStep \/ CmpStep \/ FromInt \/ ToFlt)
+           ELSE (Load \/ Step \/ Step \/ Step \/ Cas \/ NegStep \/ CmpStep \/ FromInt \/ FromFlt \/ ToFlt)
 Spec == Init /\ [][Next]_<<hist, loaded>>
 Emit == Len(hist) = Depth => CSVWrite("%1$s", <<ToJson(hist)>>, Out)
 =============================================================================
